@@ -10,6 +10,8 @@ def run(name):
     src = open(path).read()
     if src.count(m['old']) != 1:
         return name, 'SKIP(old text occurs %d times)' % src.count(m['old'])
+    ev = f"/verif/evidence/{m['property']}.json"
+    evsave = open(ev).read() if os.path.exists(ev) else None
     try:
         open(path, 'w').write(src.replace(m['old'], m['new']))
         pkg = './' + os.path.dirname(m['file']) if os.path.dirname(m['file']) else '.'
@@ -23,6 +25,8 @@ def run(name):
         return name, f"{ok}{m['property']} {tests} check={verdict} expect={m.get('expect','red')} :: " + ' | '.join(d.strip()[:160] for d in detail)
     finally:
         open(path, 'w').write(src)
+        if evsave is not None:
+            open(ev, 'w').write(evsave)  # evidence describes runs on the unchanged tree only
 names = sys.argv[1:]
 if names == ['all']:
     names = sorted(os.path.basename(p)[:-5] for p in glob.glob('/verif/mutants/*.json'))
